@@ -31,11 +31,11 @@ CLAIMED = {
     'C05': ("conversion_fault_raises (every completion order of the pool jobs), worker_fault_raises / worker_runs_bounded / worker_never_blocks (every interleaving of the worker threads), dict_fault_raises, policy_rejects_iff, storage_need; fault enumeration on the real code: fault kind x position x learner x n_jobs x chunk size, storage byte budget swept over every chunk-size boundary, every call under a deadline in a killable worker.",
             "partial: which stage detects which fault kind per learner is a table in harness/run_C05.py sampled by the enumeration, not a theorem; wall-clock boundedness is the harness deadline (theorems bound transitions); multiprocessing.Pool re-raises worker exceptions of starmap in the caller; every submitted job eventually completes."),
     'C08': ("delta_rule_row, whR2R_eq_spec, whB2R_eq_spec, whR2B_eq_spec (each kernel = delta rule on its own row, no other row touched), binary_is_indicator, wh_schedule_independent (every valid OpenMP schedule), wh_driver_eq_spec, single_cue_outcome, wh_table_order; wh.wh in three flavours, numpy and dict_wh vs the Lean whModel, exact values and labels, continuation chains. Also wh_*_end_to_end (whModel on names = delta-rule spec), and continuation/chains: wh_*_spec_append, wh_*_continue, wh_chain_any_length, wh_chain_eq_single_call (PyndlProofs/WHChain.lean).",
-            "IEEE-754 rounding outside the exact-dyadic domain; xarray broadcasting in the numpy path; OpenMP scheduling under DRF=>SC."),
+            "IEEE-754 rounding outside the exact-dyadic domain; xarray dot / label-aligned arithmetic in the numpy path (modelled as the matrix update W += eta (o - W c) c^T: whNumpyModel); OpenMP scheduling under DRF=>SC."),
     'C12': ("act_eq_sum (matrix paths, multiplicity), act_cues_policy, act_missing (KeyError/ignore table), act_dict_eq_sum, paths_agree, events_independent (multi = single process), step_delta; DataArray (n_jobs 1..6) and dict-of-dicts weights vs the Lean model, exact; step_delta also on dict_ndl + activation() alone.",
-            "numpy fancy indexing/sum and the shared-memory multiprocessing pool are trusted; exact comparison inside the dyadic domain."),
+            "numpy fancy indexing/sum trusted; Pool.starmap runs every per-event task exactly once, in any completion order (the multi-process path is modelled on the flat shared buffer for every such order: activation_mp_eq_single, mp_cells_written_once); exact comparison inside the dyadic domain."),
     'C14': ("onehot_sum, wh_r2b_onehot_eq_rw, wh_b2r_onehot_eq_rw, wh_r2r_onehot_eq_rw and the counter-example for repeated outcomes; wh.wh (all flavours, shuffled one-hot tables with unused dimensions) vs ndl.ndl(alpha=1, betas=(eta,eta), lambda=1) on the same file, implementation vs implementation and both vs the Lean models. Whole event sequences on names: OneHotTable, wh*Spec_onehot_eq_rw, END TO END wh_{r2b,b2r,r2r}_onehot_eq_ndl (whModel vs ndlModel through their labels), table_row_order_irrelevant_* (PyndlProofs/WHOneHot.lean).",
-            "IEEE-754 rounding outside the exact-dyadic domain; wh_binary_binary is a call into ndl.ndl (differential run only); method='numpy' and dict_wh are outside whModel."),
+            "IEEE-754 rounding outside the exact-dyadic domain; wh_binary_binary is a call into ndl.ndl (differential run only); method='numpy' and dict_wh have their own models (whNumpyModel, dictWhModel: wh_numpy_onehot_eq_ndl, dict_wh_onehot_eq_ndl) on the events they accept (one cue, one outcome)."),
     'C16': ("entries_count(_mixed), entries_late, split_join, pad_strip, stored_is_join, reports_call, raw_ndl/raw_wh, save_load_identity, sep_generated (separator literal regenerated from the source); chains of 1-4 calls of ndl / dict_ndl / wh flavours with save_load at random positions vs the driver.",
             "partial: netCDF4/HDF5/xarray serialisation cannot be modelled — the netCDF clause is decided only by the differential run (values bit-exact, coords, attrs, continued learning); Python str() of floats/tuples is Python-supplied."),
     'C17': ("fs_clean (bracket = with TemporaryDirectory: every body below its directory, every exit), exit_preserved, fs_clean_nested, chunk_paths_inside, old_spool_leaks (F7); every learner x path/generator/list x temporary_directory given/defaulted x success and every injected failure incl. storage budgets: directory listings and sha256 of the input before/after.",
@@ -75,10 +75,12 @@ NOTE_OVERRIDE = {
     'C05': "Learner-level theorems: a repeated name under the default policy, a chunk size >= 2^32, a zero-event file, a missing vector make ndlCall / whModel return the error (ndl_dup_raises, ndl_overflow_raises, ndl_empty_raises, wh_*_raises), and the abstract failing-job oracle of the submit loop is instantiated from the event file (failingJob_iff, conversion_dup_raises). partial: truncated gzip, storage exhaustion and unusable hyper-parameter types have no model value (test only: fault enumeration); wall-clock boundedness is the harness deadline (theorems bound transitions); multiprocessing.Pool re-raises worker exceptions in the caller; every submitted job eventually completes.",
     'C06': "Truncated chunk files are OUTSIDE the property and the theorems (kernel_reads_what_py_reads / kernel_rejects_what_py_rejects are about complete chunks and bad headers; the model's `.truncated` is a marker, the real readers zero-fill / ignore fread's return value); the exception class is not in the model. partial: C memory safety beyond the capacity invariant; little-endian host; fopen failure; n+chunk < 2^32 (row partition wrap needs >= 2^31 rows, not exercisable here).",
     'C07': "gzip and the UTF-8 codec are identity; Python's universal-newline layer is modelled (LF, CR, CRLF); the integer literal parser is a PARAMETER of the model (theorems for every intOf; the instance pyInt mirrors int() on ASCII, a Python-supplied table covers non-ASCII digits); 1 <= step (step = 0 raises: proved and run); container / path-vs-Path / generator dispatch is not in the model (forms_agree is about the parsed events; the forms themselves are test only).",
+    'C08': "All three implementations have a model and theorems: OpenMP (whModel), method='numpy' (whNumpyModel) and dict_wh (dictWhModel, PyndlModel/WHPy.lean); the latter two accept exactly one cue and one outcome per event after the duplicate policy (hypothesis IsSingle; AssertionError otherwise: single_event_checks) and on such events equal whR2RSpec / the OpenMP result (wh_numpy_eq_openmp: the same labelled matrix; dict_wh_eq_openmp: at every pair of keys; wh_implementations_alike), continuation included (wh_numpy_continue, dict_wh_continue, *_two_calls); hypotheses: names have rows in the tables, dimension labels distinct for dict_wh and for continued calls. The order in which make_data_array lists cue dimensions is a Python set order (model: first occurrence; statements read through labels). IEEE-754 rounding outside the exact-dyadic domain; xarray dot / label-aligned arithmetic trusted to be the matrix update; OpenMP scheduling under DRF=>SC.",
+    'C14': "For all flavours (r2b, b2r, r2r through whModel) and methods (numpy, dict_wh through their own models, on the single-cue / single-outcome events they accept: wh_numpy_onehot_eq_ndl, dict_wh_onehot_eq_ndl); hypotheses: at least one event, CfgOK / Fits32 of the ndl.ndl call, one-hot tables with dimension maps injective on the occurring names, outcomes unique within an event (automatic for the two methods). IEEE-754 rounding outside the exact-dyadic domain; wh_binary_binary is a call into ndl.ndl (differential run only); continued learning is C03/C08.",
     'C09': "str.lower and the white-space predicate are arbitrary functions in the theorems (the driver instance is a Python-supplied table per input); set expressions are literal characters and ranges (SetExprPlain), others raise re.error (modelled); a failing call after the event file was opened leaves header + events written so far (create_frame, late_failure_prefix; stream failing_call); the number of lines the text layer yields before a UnicodeDecodeError is Python-supplied.",
     'C10': "n_jobs is absent from the model: independence of n_jobs is by construction and rests on the ordering guarantee of multiprocessing.Pool.imap (trusted; sampled for n_jobs 1..8); rule arguments are the documented sequences / mappings (one-shot iterators are outside the documentation); one malformed line per file (a rare CPython Pool.terminate deadlock with many simultaneous worker exceptions is outside the property, see DESIGN §4); a failing call leaves a partial output file (noted, the C10 model has no file system).",
     'C11': "str.split()/strip()/lower() results are Python-supplied per input; Pool.starmap returns results in submission order; 1 <= n_jobs (0 raises: proved and run); integer literal parser as in C07.",
-    'C12': "Label lists duplicate-free (w.cues.Nodup, w.outcomes.Nodup: the model takes the first index of a repeated label, the code the last); n_jobs and the shared-memory path are absent from the model (multi = single process is a list homomorphism, test by layouts x n_jobs); numpy fancy indexing/sum trusted; exact comparison inside the dyadic domain.",
+    'C12': "Label lists duplicate-free (w.cues.Nodup, w.outcomes.Nodup: the model takes the first index of a repeated label, the code the last); the n_jobs >= 2 path is modelled (PyndlModel/ActivationMP.lean: flat shared buffer of n_outcomes*n_events cells, one column-write task per event, the tasks in an arbitrary completion order): activation_mp_eq_single (= single process for every permutation of the tasks and every initial buffer content), mp_cells_written_once (no store outside the buffer, every cell exactly once), mp_dropped_tail_differs (seeded change C12_b is not a permutation and gives another matrix); trusted: Pool.starmap runs every task exactly once and returns after all of them, a task's column write is not torn; numpy fancy indexing/sum trusted; exact comparison inside the dyadic domain.",
     'C15': "partial: ndl.ndl composed from scratch with constant alpha within Fits32 / CfgOK and at least one event surviving the filter (otherwise IOError: pipeline_ndl_empty_raises); wh learners not composed; matrix-path activations for the training events only; gzip/UTF-8 identity; the text the creator writes is taken to be renderFile of the created events (header and line-format literals extracted; with remove_duplicates=True the code writes in set order: pipeline_order_irrelevant); Pool.imap order trusted; F14 (labels lose a trailing U+0000) is a known finding; trusted items of C01, C07, C09, C10, C11, C12 apply.",
     'C16': "Truthfulness is proved for ndl.ndl chains (ndl_chain_reports: number_events entry i is the count the learner model returns, path / method / parameters those of call i) and the append-one-entry rule for chains of any length and any starting attrs; dict_ndl / wh chains: append rule only. partial: netCDF4/HDF5/xarray serialisation cannot be modelled — the netCDF clause is decided only by the differential run (values bit-exact, coords, attrs, continued learning); supplied strings contain no '|' and no trailing space; Python str() of floats/tuples is Python-supplied.",
     'C17': "partial: that the real bodies only write below their TemporaryDirectory (OnlyBelow) is what the differential run observes, not a theorem about the code; under it: paths and file CONTENTS unchanged (fs_clean_contents, inputs_unchanged), spool and chunk directory as siblings as in the code; shutil.rmtree succeeds and Pool.terminate leaves no writer (assumed).",
@@ -95,13 +97,13 @@ TIE = {
     'C05': "fault enumeration {repeated cue, malformed lines (1/4 columns, empty line, non-integer count), truncated gzip, missing vector, byte budgets (RLIMIT_FSIZE in the conversion workers), hyper-parameter and betas faults, failing generators} x position x 8 learners with per-task n_jobs / chunk sizes; the same task without the fault must return; violations shrunk.",
     'C06': "write_events / read_binary_file byte for byte vs encodeChunk / decodeChunkPy (small exhaustive + wide + window limits), all five kernel entry points on model-written chunks (incl. > 1024 ids per event, > 2^32-cell matrices and tables, empty file list), bad headers at every position.",
     'C07': "event lists over a hostile Unicode alphabet x containers (lists, strings, tuples, iterators, DataFrames in several shapes) x gzip/plain x compatible x columns= x delimiter=, files character by character vs renderFileWith; frequency cells in every int() spelling, start/step incl. 0; six input forms of the learners from scratch and continuing from weights, with chunking and both methods.",
-    'C08': "wh.wh in three flavours (openmp; r2b also with beta1 != beta2), numpy and dict_wh in every shape their signatures allow, vs whModel: tables 1-23 dims with shuffled rows, chunk sizes tied to each dimension, >= 11 chunk files, missing vectors, outcome-less events, chains, given weights with foreign / permuted / repeated labels.",
+    'C08': "wh.wh in three flavours (openmp; r2b also with beta1 != beta2), numpy and dict_wh in every shape their signatures allow, vs whModel: tables 1-23 dims with shuffled rows, chunk sizes tied to each dimension, >= 11 chunk files, missing vectors, outcome-less events, chains, given weights with foreign / permuted / repeated labels; every numpy / dict_wh case also vs its own model (whNumpyModel / dictWhModel, the calls of a chain one by one), plus events these two reject (two cues / outcomes, repeats under False, no outcome, names without a vector; which exception, which call) and numpy with given weights.",
     'C09': "generated corpora x all option combinations (incl. verbose) vs createEvents; failing calls (bad set expression, corpus that stops being UTF-8, raising callable) vs what the model says is left behind; existing event file.",
     'C10': "filter_event_file on generated files x rule kinds x n_jobs 1..8 x chunk sizes x argument containers (list, tuple, set, frozenset, key view; dict / OrderedDict / defaultdict) vs the model; constructor table; idempotence; verbose.",
     'C11': "event and corpus files x n_jobs 0..32 x lower_case vs the driver's direct and strided counts; frequency cells in other int() spellings.",
-    'C12': "activation on DataArray (n_jobs 1..6, several memory layouts) and dict-of-dicts weights, events as list / iterator / event-file path (with frequency column), unknown cues, all policies, vs the model; one further learning step vs the activation.",
+    'C12': "activation on DataArray (n_jobs 1..6, several memory layouts) and dict-of-dicts weights, events as list / iterator / event-file path (with frequency column), unknown cues, all policies, vs the model; every n_jobs >= 2 case also vs the multi-process model run in a harness-chosen random completion order; one further learning step vs the activation.",
     'C13': "every law run as a metamorphic relation between 2-3 real runs (all learners, repeats under keep/dedup, medium vocabularies, initial weights in several layouts, dict_ndl handed a DataArray) and every run also vs the model.",
-    'C14': "wh.wh in all flavours and methods (openmp, numpy, dict_wh) with shuffled one-hot tables and unused dimensions vs ndl.ndl(alpha=1, betas=(eta,eta), lambda=1) on the same file, incl. >= 11 chunk files; both also vs their models.",
+    'C14': "wh.wh in all flavours and methods (openmp, numpy, dict_wh) with shuffled one-hot tables and unused dimensions vs ndl.ndl(alpha=1, betas=(eta,eta), lambda=1) on the same file, incl. >= 11 chunk files; both also vs their models (numpy and dict_wh vs whModel AND vs their own models).",
     'C15': "two pipeline heads (create_event_file -> filter_event_file; events_to_file in five containers x gzip/plain x compatible) -> reader -> counts -> learner -> activation, each stage model fed the implementation's previous artefact, plus the model-only chain end to end.",
     'C16': "chains of 1-4 calls of ndl / dict_ndl / wh flavours with save/load at random positions, pathlib.Path arguments, frequency columns and several chunk files; every attribute entry vs the model, netCDF round trip bit-exact.",
     'C17': "every learner x path/generator/list x temporary_directory given/defaulted x success, every fault of C05 and learning-stage failures (bad method, n_outcomes_per_job=0, malformed weights): directory listings and sha256 of the inputs before/after.",
